@@ -19,6 +19,9 @@ void h_ffi_eq (void) {
   struct ff_interface a, b;
   a.nres = nondet_size (); a.nargs = nondet_size (); a.arg_vars_num = nondet_size ();
   b.nres = nondet_size (); b.nargs = nondet_size (); b.arg_vars_num = nondet_size ();
+#ifdef VP_SMALL
+  __CPROVER_assume (a.nres <= 3 && b.nres <= 3 && a.nargs <= 3 && b.nargs <= 3);
+#endif
   __CPROVER_assume (a.nres <= (1u << 20) && b.nres <= (1u << 20) && a.nargs <= (1u << 20) && b.nargs <= (1u << 20));
   a.res_types = malloc (a.nres * sizeof (MIR_type_t)); b.res_types = malloc (b.nres * sizeof (MIR_type_t));
   a.arg_descs = malloc (a.nargs * sizeof (_MIR_arg_desc_t)); b.arg_descs = malloc (b.nargs * sizeof (_MIR_arg_desc_t));
